@@ -330,8 +330,12 @@ PROPS = {
                    'INSIDE __conform__ -- propagates and nothing later runs. The product of the statement (hook lists <= 2/3, attribute '
                    'locations, inherited custom __adapt__, adaptation sequences, hooks that re-enter adaptation) is additionally run bounded '
                    'in both implementations.',
-        level_note='assumes hooks do not edit the hook list (C11 covers that), providedBy is a pure query that does not fail, the '
-                   '_call_conform TypeError heuristic is outside the domain, the _CALL_CUSTOM_ADAPT flag is present exactly for interfaces '
+        level_text_extra=' InterfaceClass._call_conform is verified from its body: conform(interface) is called exactly once, its result is returned, '
+                         'every exception propagates -- except a TypeError whose traceback has a single entry (raised by the call machinery: the object is '
+                         'a class, __conform__ an unbound method), which counts as "no __conform__" (None).',
+        level_note='assumes hooks do not edit the hook list (C11 covers that), providedBy is a pure query (an unset _implied is an AttributeError in both '
+                   'implementations, fix fd42db3); __call__ uses _call_conform through the summary without the shallow-TypeError case (a class used as the '
+                   'adapted object); the traceback test is an oracle; the _CALL_CUSTOM_ADAPT flag is present exactly for interfaces '
                    'with a custom __adapt__ (InterfaceClass.__new__, bounded); CPython API models trusted (A2).',
     ),
     'C15': dict(
